@@ -109,8 +109,8 @@ def bases(ctx, n):
            assemble([{"o": "PROTO", "a": 4}, O("EMPTY_LIST"), O("MEMOIZE"), K(1), O("APPEND"), O("STOP")]),
            pickle.dumps({"a": [1, 2, (3, 4)], "b": {5, 6}}, 4), pickle.dumps([genvalues.verif_nat.Plain(a=1)], 2),
            pickle.dumps(genvalues.verif_nat.Reducer(1, 2), 3), pickle.dumps((1, "x", None), 0)]
-    for d, _t in genvalues.natural_pickles(ctx.rng, n):
-        if len(d) < 1500:
+    for d, t in genvalues.natural_pickles(ctx.rng, n):
+        if len(d) < 1500 and "unsupported" not in t:      # the starting pickle must parse (no FLOAT / BYTEARRAY8 ...)
             out.append(d)
     return out
 
